@@ -11,7 +11,7 @@ S = Sym
 SCOPES = ['global', 'after', 'until', 'after_until']
 PATTERNS = ['absence', 'existence', 'response', 'requirement', 'prevention']
 TOPICS = ['a', 'b', 'c', 'd', '/ns/topic', '~private', 'e1', 'cmd_vel', 'odom', 'scan']
-TIMES = [None, None, '100 ms', '1 s', '0.5 s', '2.5 s', '10 ms', '3 s', '1000 ms', '0 s']
+TIMES = [None, None, '100 ms', '1 s', '0.5 s', '2.5 s', '10 ms', '3 s', '1000 ms', '0 s', '9 ms', '13 ms', '143 ms', '1009 ms', '51 ms', '0.5 ms', '7 ms', '86 ms']
 
 
 def render_event(ev, rng=None, style='min'):
